@@ -210,6 +210,26 @@ def run_dram_monitor(cfg, lines, obs, nbm, timing=True):
     return viol, refs
 
 
+def run_timing_monitor(cfg, obs, nbm):
+    """Evaluate the controller-cycle timing monitor of C03.controller_timing_ok (Spec/TimingMon.lean) on the implementation's DFI
+    trace, with the controller's own settings as requirements. Returns the violation line or None."""
+    t = cfg["timing"]; n = cfg["nphases"]
+    wl = -(-cfg["cwl"] // n)
+    z = lambda v: v or 0
+    xs = [n, 1 << cfg["rankbits"], 1 << cfg["bankbits"], t["tRCD"], t["tRP"], z(t["tRAS"]), z(t["tRC"]), z(t["tRRD"]), z(t["tFAW"]), t["tCCD"],
+          wl + t["tWR"] + t["tCCD"], t["tWTR"] + wl + t["tCCD"], t["tRFC"], z(t["tZQCS"])]
+    ml = [" ".join(map(str, xs))] + [" ".join(o.split()[4 * nbm:]) for o in obs]
+    out = core.run_driver("timingmon", ml)
+    return next((x for x in out[1:] if x.startswith("VIOL")), None)
+
+
+def wf3(cfg):
+    """the configuration conditions of C03.controller_timing_ok beyond WF2 (see Props/C03_Controller.lean)"""
+    t = cfg["timing"]; n = cfg["nphases"]
+    wl = -(-cfg["cwl"] // n)
+    return t["tRP"] >= 1 and t["tWTR"] + wl + t["tCCD"] <= t["tRP"] + t["tRFC"]
+
+
 # ------------------------------------------------------------------------------------------------ whole core
 BURST_MODEL = {"SDR": 1, "DDR": 2, "LPDDR": 2, "DDR2": 2, "DDR3": 2, "DDR4": 2}
 
